@@ -221,6 +221,13 @@ pub fn run(ctx: &mut Ctx) {
         ctx.class("stream:stack-heavy");
         check_case(ctx, g, specs)
     });
+    // terminal-heavy stream: adjacent literals, insensitive non-ASCII literals, skipper shapes over related needles
+    let n_term = ctx.share(ctx.tier.pick(30_000, 800_000));
+    let strat = (terminal_heavy_grammar(), proptest::collection::vec(spec_strategy(), 16));
+    ctx.run_prop(n_term, 4, strat, |ctx, (g, specs)| {
+        ctx.class("stream:terminal-heavy");
+        check_case(ctx, g, specs)
+    });
     // exhaustive block: all strings <= k over (up to 5 symbols of) the grammar's alphabet
     let n_ex = ctx.share(ctx.tier.pick(4_000, 60_000));
     let k = ctx.tier.pick(3, 4);
